@@ -51,8 +51,9 @@ type Fault struct {
 	Gen     string `json:"gen,omitempty"`
 	Pkg     string `json:"pkg,omitempty"`
 	Type    string `json:"type,omitempty"`
-	Nth     int    `json:"nth,omitempty"`
-	Off     int64  `json:"off,omitempty"` // for os.write addressed by byte offset: first write covering Off; -1 unused
+	Nth     int    `json:"nth,omitempty"`   // occurrence index, counted per phase
+	Phase   string `json:"phase,omitempty"` // "load" | "exec" | "" (either)
+	Off     int64  `json:"off,omitempty"`   // for os.write addressed by byte offset: first write covering Off
 	ByOff   bool   `json:"by_off,omitempty"`
 	// Do: "errno:<NAME>" | "short:<j>:<NAME>" | "kill" | "kill-after:<j>" |
 	// "edit" (external edit of EditPath with EditContent at this instant) |
@@ -94,6 +95,7 @@ type Event struct {
 	N     int    `json:"n,omitempty"`
 	Off   int64  `json:"off,omitempty"`
 	Fault string `json:"fault,omitempty"`
+	Nth   int    `json:"nth,omitempty"` // occurrence index of (kind, path) within its phase
 }
 
 // PkgReport is the C13 report of one loaded package.
